@@ -434,6 +434,7 @@ pub fn do_op<K: KeyT, V: ValT>(m: &mut Map<K, V>, w: &[&str], chk: &mut Vec<Stri
             let e = m.entry(K::mk(n(1), n(2)));
             let mut old: Option<u64> = None;
             let mut f = |_k: &K, val: V| {
+                pred_tick(); // armed: the closure panics while it owns the value
                 old = Some(val.val());
                 held.push(Box::new(val));
                 if some { Some(V::mk(nv)) } else { None }
@@ -478,6 +479,7 @@ pub fn do_op<K: KeyT, V: ValT>(m: &mut Map<K, V>, w: &[&str], chk: &mut Vec<Stri
             let e = m.raw_entry_mut().from_key(&k);
             let mut old: Option<u64> = None;
             let mut f = |_k: &K, val: V| {
+                pred_tick(); // armed: the closure panics while it owns the value
                 old = Some(val.val());
                 held.push(Box::new(val));
                 if some { Some(V::mk(nv)) } else { None }
@@ -534,6 +536,7 @@ pub fn do_op<K: KeyT, V: ValT>(m: &mut Map<K, V>, w: &[&str], chk: &mut Vec<Stri
             let v = m
                 .entry(K::mk(n(1), n(2)))
                 .and_modify(|x| {
+                    pred_tick();
                     let nv = x.val().wrapping_add(add);
                     x.set(nv)
                 })
